@@ -141,7 +141,7 @@ var c16JSON = map[string][]string{
 	"bigint": {`9223372036854775808`, `-9223372036854775809`, `1e19`, `1e30`, `18446744073709551616`}, // integral, but no int64
 	"bool":   {`true`, `false`},
 	"null":   {`null`},
-	"object": {`{"name":"n","count":2}`, `{}`},
+	"object": {`{"name":"n","count":2}`, `{}`, `{"name":"only"}`, `{"count":9}`, `{"name":"m","count":-4,"unknown":[1]}`},
 	"array":  {`["a","b"]`, `[]`},
 }
 
@@ -173,6 +173,74 @@ func yn(b bool) string {
 		return "yes"
 	}
 	return "no"
+}
+
+// c16ExpectCall is what the receiver must have recorded for a correct call with these JSON parameter texts
+// (hand-written per method; the JSON texts are decoded with the standard library).
+func c16ExpectCall(goName string, vals []string) string {
+	str := func(i int) string {
+		var v string
+		if i < len(vals) {
+			json.Unmarshal([]byte(vals[i]), &v)
+		}
+		return v
+	}
+	num := func(i int) int64 {
+		var v int64
+		if i < len(vals) {
+			json.Unmarshal([]byte(vals[i]), &v)
+		}
+		return v
+	}
+	obj := func(i int) (RPCParams, bool) {
+		var v *RPCParams
+		if i < len(vals) {
+			json.Unmarshal([]byte(vals[i]), &v)
+		}
+		if v == nil {
+			return RPCParams{}, false
+		}
+		return *v, true
+	}
+	switch goName {
+	case "NoArgs":
+		return "NoArgs()"
+	case "ID":
+		return "ID()"
+	case "OneString":
+		return fmt.Sprintf("OneString(%q)", str(0))
+	case "URLFor":
+		return fmt.Sprintf("URLFor(%q)", str(0))
+	case "CtxTwo":
+		return fmt.Sprintf("CtxTwo(%d,%q)", num(0), str(1))
+	case "X":
+		return fmt.Sprintf("X(%d)", num(0))
+	case "StructArg":
+		v, _ := obj(0)
+		return fmt.Sprintf("StructArg({%q,%d})", v.Name, v.Count)
+	case "PtrArg":
+		v, ok := obj(0)
+		if !ok {
+			return "PtrArg(nil)"
+		}
+		return fmt.Sprintf("PtrArg({%q,%d})", v.Name, v.Count)
+	case "SliceArg":
+		var xs []string
+		if len(vals) > 0 {
+			json.Unmarshal([]byte(vals[0]), &xs)
+		}
+		return fmt.Sprintf("SliceArg(%q)", xs)
+	case "Three":
+		var b bool
+		if len(vals) > 2 {
+			json.Unmarshal([]byte(vals[2]), &b)
+		}
+		return fmt.Sprintf("Three(%q,%d,%v)", str(0), num(1), b)
+	case "TailPtr":
+		_, ok := obj(1)
+		return fmt.Sprintf("TailPtr(%q,%v)", str(0), ok)
+	}
+	return ""
 }
 
 func c16LibraryCase(rt *rapid.T, rec *vt.Rec) {
@@ -383,11 +451,10 @@ func c16LibraryCase(rt *rapid.T, rec *vt.Rec) {
 			} else if code(resp) != 0 {
 				rt.Fatalf("correct call answered with an error: %s: %v", desc, resp.Response.Error)
 			}
-			if em.goName == "Three" && arity == 3 {
-				want := fmt.Sprintf("Three(%s,%s,%s)", vals[0], vals[1], vals[2])
-				if calls[0] != want {
-					rt.Fatalf("decoded arguments differ: got %s want %s", calls[0], want)
-				}
+			// the method saw exactly the values of THIS request: members and trailing parameters the request leaves
+			// out are zero, whatever earlier calls of the same method carried
+			if want := c16ExpectCall(em.goName, vals[:arity]); want != "" && calls[0] != want {
+				rt.Fatalf("decoded arguments differ: the method ran as %s, the request says %s (%s; earlier probes: %v)", calls[0], want, desc, sample)
 			}
 		case "either":
 			if len(calls) > 1 {
